@@ -16,9 +16,17 @@ Two correspondences per run:
       delivered in sequences: acknowledgement, error and every reading compared with
       the model after every line, and with an oracle that computes "first value per letter" from the
       abstract report (never from the model).
+
+Ambient configuration: a share of the sequences of (b) is delivered with Python's `logging` configured the way an
+application tracing a session would have it (root / package / module logger at DEBUG, INFO or WARNING, a handler that
+formats the records into memory or one that drops them, switched on before the writer exists or between two lines).
+The readings must not depend on it; the model has no notion of logging, its records are the same for every
+configuration.  `logging_state()` puts every logger level / handler list back, also on exceptions.
 """
 from __future__ import annotations
 
+import contextlib
+import io
 import logging
 import re
 import signal
@@ -347,7 +355,27 @@ def gen_error_line(rng):
     return lead + head + tail + trail
 
 
-def gen_case(rng):
+# ---- ambient configuration: how verbose the application has configured logging to be
+LOG_LEVELS = ["DEBUG", "DEBUG", "DEBUG", "INFO", "WARNING"]
+
+
+def gen_log_config(rng, n_items):
+    """Levels for the root logger, the library's package logger and the writer's module logger (None = not set, the
+    level is inherited), what the handler does with a record, and the line before which the application switches it on
+    (0 = before the writer is created)."""
+    cfg = {"root": rng.choice(["WARNING", "WARNING", "INFO", "DEBUG", "DEBUG"]),
+           "package": rng.choice([None, None, None] + LOG_LEVELS),
+           "module": rng.choice([None, None, None] + LOG_LEVELS),
+           "sink": rng.choice(["stream", "stream", "null"]),
+           "at": 0 if rng.random() < 0.6 else rng.randrange(n_items)}
+    return cfg
+
+
+def log_effective(cfg):
+    return "quiet" if not cfg else (cfg.get("module") or cfg.get("package") or cfg.get("root") or "WARNING")
+
+
+def gen_case(rng, p_log=0.4):
     """A sequence of lines for one writer: reports (oracle applies), error lines (oracle: nothing changes)."""
     items = []
     for _ in range(rng.choice([1, 1, 2, 2, 3, 4, 6])):
@@ -358,7 +386,10 @@ def gen_case(rng):
             items.append(rng.choice([it for it in items]))
         else:
             items.append(("report", rng.choice(FAMILIES)(rng)))
-    return {"via": rng.choice(["printrun", "printrun", "serial", "socket"]), "items": items}
+    case = {"via": rng.choice(["printrun", "printrun", "serial", "socket"]), "items": items}
+    if rng.random() < p_log:
+        case["log"] = gen_log_config(rng, len(items))
+    return case
 
 
 def gen_garbage_case(rng):
@@ -376,7 +407,10 @@ def gen_garbage_case(rng):
             items.append(("error", gen_error_line(rng)))
         else:
             items.append(("report", rng.choice(FAMILIES)(rng)))
-    return {"via": "printrun", "items": items}
+    case = {"via": "printrun", "items": items}
+    if rng.random() < 0.3:
+        case["log"] = gen_log_config(rng, len(items))
+    return case
 
 
 ERRWORD_RE = re.compile(r"error|alarm|!!", re.IGNORECASE)
@@ -434,7 +468,10 @@ def item_line(item):
 
 
 def case_repr(case):
-    return {"via": case["via"], "lines": [item_line(it) for it in case["items"]], "items": [list(it) for it in case["items"]]}
+    out = {"via": case["via"], "lines": [item_line(it) for it in case["items"]], "items": [list(it) for it in case["items"]]}
+    if case.get("log"):
+        out["log"] = dict(case["log"])
+    return out
 
 
 # ------------------------------------------------------------------ implementation adapter
@@ -468,24 +505,75 @@ def frac_text(v):
     return str(f.numerator) if f.denominator == 1 else f"{f.numerator}/{f.denominator}"
 
 
+def _logger_chain(module_name):
+    """The loggers whose level decides what `logging.getLogger(<module of the writer>)` lets through: root, the package,
+    everything in between, the module."""
+    parts = module_name.split(".")
+    return [logging.getLogger()] + [logging.getLogger(".".join(parts[:k])) for k in range(1, len(parts) + 1)]
+
+
+@contextlib.contextmanager
+def logging_state(module_name="gscrib.writers.printrun_writer"):
+    """Everything this harness touches in the global logging configuration is put back on exit (also on exceptions):
+    level, handler list, `propagate` and `disabled` of the loggers of the chain, and `logging.disable`."""
+    loggers = _logger_chain(module_name)
+    saved = [(lg, lg.level, list(lg.handlers), lg.propagate, lg.disabled) for lg in loggers]
+    saved_disable = logging.root.manager.disable
+    try:
+        yield loggers
+    finally:
+        for lg, level, handlers, propagate, disabled in saved:
+            lg.handlers[:] = handlers
+            lg.propagate = propagate
+            lg.disabled = disabled
+            lg.setLevel(level)  # also drops the cached isEnabledFor answers
+        logging.disable(saved_disable)
+
+
+def apply_log_config(cfg, loggers):
+    """What an application does to trace a session: `basicConfig(stream=…, level=root)` and/or
+    `getLogger("<package>" | "<module>").setLevel(…)`. Nothing reaches the console: root's handlers are replaced by one
+    that formats every record into memory (`stream`) or one that drops it unformatted (`null`)."""
+    root, package, module = loggers[0], loggers[1], loggers[-1]
+    sink = logging.StreamHandler(io.StringIO()) if cfg.get("sink") == "stream" else logging.NullHandler()
+    sink.setFormatter(logging.Formatter("%(asctime)s %(name)s %(levelname)s %(message)s"))
+    root.handlers[:] = [sink]
+    for lg in loggers[1:]:
+        lg.setLevel(logging.NOTSET)
+        lg.propagate = True
+        lg.disabled = False
+    root.setLevel(getattr(logging, cfg.get("root") or "WARNING"))
+    if cfg.get("package"):
+        package.setLevel(getattr(logging, cfg["package"]))
+    if cfg.get("module"):
+        module.setLevel(getattr(logging, cfg["module"]))
+
+
 def impl_run(case, letters):
     from gscrib.excepts import DeviceError
+    from gscrib.writers import PrintrunWriter
 
-    front, back = make_writer(case["via"])
-    recs, raw = [], []
-    for item in case["items"]:
-        back._ack_event.clear()
-        back._on_device_message(item_line(item))
-        e = back._device_error
-        if e is None:
-            err = "-"
-        elif type(e) is DeviceError:
-            err = cps(str(e))
-        else:
-            err = "!" + type(e).__name__
-        vals = {L: front.get_parameter(L) for L in letters}
-        raw.append((back._ack_event.is_set(), err, vals))
-        recs.append(f"ack={1 if back._ack_event.is_set() else 0} err={err} " + " ".join(f"{L}={frac_text(vals[L])}" for L in letters))
+    cfg = case.get("log")
+    with logging_state(PrintrunWriter.__module__) as loggers:
+        if cfg and cfg.get("at", 0) <= 0:
+            apply_log_config(cfg, loggers)
+        front, back = make_writer(case["via"])
+        recs, raw = [], []
+        for k, item in enumerate(case["items"]):
+            if cfg and k > 0 and cfg.get("at", 0) == k:
+                apply_log_config(cfg, loggers)  # the application turns tracing on in the middle of a session
+            back._ack_event.clear()
+            back._on_device_message(item_line(item))
+            e = back._device_error
+            if e is None:
+                err = "-"
+            elif type(e) is DeviceError:
+                err = cps(str(e))
+            else:
+                err = "!" + type(e).__name__
+            vals = {L: front.get_parameter(L) for L in letters}
+            raw.append((back._ack_event.is_set(), err, vals))
+            recs.append(f"ack={1 if back._ack_event.is_set() else 0} err={err} " + " ".join(f"{L}={frac_text(vals[L])}" for L in letters))
     return recs, raw
 
 
@@ -505,6 +593,9 @@ def model_to_double(rec):
 def oracle(case, letters, raw):
     """get_parameter after each report = first value of the letter in that report, else the earlier reading."""
     table = {}
+    cfg = case.get("log")
+    amb = "" if not cfg else (f" [logging: root={cfg.get('root')} package={cfg.get('package')} module={cfg.get('module')} "
+                              f"handler={cfg.get('sink')} from line {cfg.get('at', 0)}]")
     for i, (item, (ack, err, vals)) in enumerate(zip(case["items"], raw)):
         if item[0] == "raw":
             return None  # no abstract report to judge by
@@ -513,16 +604,16 @@ def oracle(case, letters, raw):
             for L, v in first_values(r).items():
                 table[L] = float(v)
             if ack != r["ok"]:
-                return ("ack", i, f"line {item_line(item)!r}: acknowledged={ack}, starts with ok={r['ok']}")
+                return ("ack", i, f"line {item_line(item)!r}: acknowledged={ack}, starts with ok={r['ok']}" + amb)
             if err != "-" and not any(k == "error" for k, _ in case["items"][:i]):
-                return ("error", i, f"line {item_line(item)!r} raised a device error {err}")
+                return ("error", i, f"line {item_line(item)!r} raised a device error {err}" + amb)
         for L in letters:
             want = table.get(L.upper())
             got = vals[L]
             if (got is None) != (want is None) or (got is not None and (not isinstance(got, (int, float)) or got != want)):
                 what = "first value in the report" if (item[0] == "report" and L.upper() in first_values(item[1])) else "earlier reading"
                 return ("first-wins" if what.startswith("first") else "keeps", i,
-                        f"after {item_line(item)!r}: get_parameter({L!r}) = {got!r}, expected {want!r} ({what})")
+                        f"after {item_line(item)!r}: get_parameter({L!r}) = {got!r}, expected {want!r} ({what})" + amb)
     return None
 
 
@@ -600,7 +691,12 @@ def run_reports(R, cases, label):
             else:
                 R.count("line:" + it[0], *(error_line_tags(it[1]) if it[0] == "error" else []))
         R.case(case_repr(c), nontrivial=len(mentioned) >= 2)
-        R.count(label, "via:" + c["via"], f"lines:{len(c['items'])}")
+        R.count(label, "via:" + c["via"], f"lines:{len(c['items'])}", "logging:" + log_effective(c.get("log")))
+        if c.get("log"):
+            R.count("logging-handler:" + c["log"]["sink"], "logging-on:" + ("before-the-writer" if c["log"]["at"] <= 0 else "mid-session"))
+            if log_effective(c["log"]) == "DEBUG" and any(it[0] == "report" and any(t[0] == "P" for t in it[1]["toks"])
+                                                          for it in c["items"][max(0, c["log"]["at"]):]):
+                R.count("logging:DEBUG-with-position-group")
         if impl_recs != model_recs:
             step = next(i for i, (a, b) in enumerate(zip(impl_recs, model_recs)) if a != b)
             R.disagree("deliver-report", case_repr(c), impl_recs[step], model_recs[step], step=step)
@@ -633,13 +729,36 @@ CORPUS = [
                                                      ("O", "WCO", [(False, "0", None)] * 3)]}),
                                 ("report", {"family": "grbl-probe", "lead": "", "ok": False, "open": "[", "sep": "|", "close": "]", "trail": "",
                                             "toks": [("P", "p", [(False, "1", "5"), (False, "2", "5"), (True, "3", "5")], True)]})]},
+    # the application traces the session: every family once with the root logger at DEBUG and a formatting handler
+    {"via": "printrun", "log": {"root": "DEBUG", "package": None, "module": None, "sink": "stream", "at": 0},
+     "items": [("report", {"family": "grbl-status", "lead": "", "ok": False, "open": "<", "sep": "|", "close": ">", "trail": "\r\n",
+                           "toks": [("N", "Run"), ("P", "w", [(True, "0", "250"), (False, "12", "5"), (False, "3", None)], None), ("F", (False, "1200", None), (False, "0", None))]}),
+               ("report", {"family": "marlin-temp", "lead": "", "ok": True, "open": None, "sep": " ", "close": None, "trail": "\n",
+                           "toks": [("L", "T", (False, "199", "8")), ("N", "/200.0"), ("L", "B", (False, "59", "9")), ("N", "/60.0"), ("N", "@:64"), ("N", "B@:32")]}),
+               ("report", {"family": "grbl-probe", "lead": "", "ok": False, "open": "[", "sep": "|", "close": "]", "trail": "\r\n",
+                           "toks": [("P", "p", [(False, "4", "000"), (False, "5", "000"), (True, "0", "125")], True)]}),
+               ("report", {"family": "marlin-pos", "lead": "", "ok": True, "open": None, "sep": " ", "close": None, "trail": "\n",
+                           "toks": [("L", "X", (False, "7", "00")), ("L", "Y", (False, "8", "00")), ("L", "Z", (False, "0", "20")), ("L", "E", (False, "1", "50"))]})]},
+    # only the writer's module at DEBUG (records dropped unformatted), switched on after the first report
+    {"via": "socket", "log": {"root": "WARNING", "package": None, "module": "DEBUG", "sink": "null", "at": 1},
+     "items": [("report", {"family": "grbl-status", "lead": "", "ok": False, "open": "<", "sep": "|", "close": ">", "trail": "\n",
+                           "toks": [("N", "Idle"), ("P", "m", [(False, "1", "000"), (False, "1", "000"), (False, "1", "000")], None), ("F", (False, "0", None), (False, "0", None))]}),
+               ("report", {"family": "grbl-status", "lead": "", "ok": False, "open": "<", "sep": "|", "close": ">", "trail": "\n",
+                           "toks": [("N", "Jog"), ("P", "m", [(False, "2", "500"), (True, "3", "500"), (False, "1", "000")], None), ("F", (False, "300", None), (False, "0", None))]})]},
 ]
 
 
 def run(R: core.Run):
+    with logging_state():  # the check leaves the global logging configuration as it found it
+        return _run(R)
+
+
+def _run(R: core.Run):
     R.rule = ("(a) random strings over an adversarial alphabet and mutated report lines, scanner vs re.findall; (b) sequences of 1-6 "
               "lines for one writer: rendered reports of the four families and free token mixes (any order, signed decimals incl. '5.' and "
               "'.5', noise, ignored fields, padding, leading ok), error/alarm lines; plus malformed lines (correspondence only); "
+              "40 % of the sequences delivered under an application's logging configuration (root / package / module logger at DEBUG, INFO "
+              "or WARNING, formatting or dropping handler, switched on before the writer exists or between two lines); "
               "non-trivial = the sequence reports >= 2 different letters; distinct by hash")
     R.assumptions = [
         "device messages are ASCII (Python's \\d, float(), str.strip and str.lower also know non-ASCII digits, blanks and case pairs)",
@@ -647,6 +766,7 @@ def run(R: core.Run):
         "so a line naming one letter in both cases (x:1 X:2) reads the last one - outside the report families, covered by the correspondence only",
         "float(text) is the double nearest to the decimal text (the model holds the exact rational; compared after rounding it to a double)",
         "the writer is never connected: the receive callback is called directly, as the repository's tests drive the writer",
+        "ambient configuration varied: logging levels and handlers only (locale, warnings filters, float context are left alone)",
     ]
     _quiet()
     run_scanner(R, R.n(100000, 2000000))
@@ -672,6 +792,11 @@ def run(R: core.Run):
 
 def replay(data):
     core.use_repo()
+    with logging_state():
+        return _replay(data)
+
+
+def _replay(data):
     _quiet()
     fl = data.get("failure") or data.get("first", {})
     case = fl.get("case")
@@ -688,6 +813,9 @@ def replay(data):
         print("model:", mo)
         return 1 if io != mo else 0
     c = {"via": case["via"], "items": [(k, v) for k, v in case["items"]]}
+    if case.get("log"):
+        c["log"] = case["log"]
+        print("logging:", c["log"])
     letters = case_letters(c)
     impl_recs, raw = impl_run(c, letters)
     mo = core.run_model(MODE, ["d " + letters + " | " + " | ".join(cps(item_line(it)) for it in c["items"])])[0]
